@@ -48,7 +48,9 @@ CLAIMS = {
          "scripts (two producers; a producer and a joining subscriber; peek) plus random ones, judged by 'the stored value is the one "
          "delivered last in the common order' and 'a joiner is handed the latest value and then every later item'. Both fail on the crate "
          "as it is - store and broadcast are separate critical sections - KNOWN FINDING C12-behavior-race (C12_concurrent_refuted is its "
-         "witness in the model).", "DESIGN.md section 5 C12"),
+         "witness in the model). Where the crate does satisfy the clauses, for ALL schedules: C12_latest_with_one_producer / "
+         "C12_stored_value_with_one_producer (at most one thread calls next: the stored value is the one delivered last), "
+         "C12_joiner_on_the_producer_thread.", "DESIGN.md section 5 C12"),
  "C20": ("Theorems C20_announces / C20_group_trace / C20_flatten / C20_outer_term / C20_announced_first: for every script, key function "
          "and terminal, the group_by machine announces one group per distinct key in order of first appearance, each before anything is "
          "delivered through it; the subscriber of group k sees exactly the items of key k in source order and then the source's terminal "
